@@ -167,7 +167,9 @@ def explore(rec, start, depth, leaves):
             if kind == 'round':
                 n = exp
                 ch = abs(in_unit(r, ka) - in_unit(a, ka))
-                lim = 0.5 * 10.0 ** (-n) * (1 + 1e-9) + 1e-12
+                # half a unit of the n-th place + the float resolution of the value itself (seconds of a 15-degree DMS angle are
+                # ~5e4: differences of such numbers carry ~1e-11 of rounding)
+                lim = 0.5 * 10.0 ** (-n) + 16 * 2.220446049250313e-16 * max(1.0, abs(in_unit(a, ka)))
                 if kr != ka or not (ch <= lim):
                     rec.fail('round(a, n) changes the angle by more than half a unit of the n-th place (or changes class)',
                              site='angles:%s.round' % ka, observed=repr(r), expected=repr(a), tol=lim,
@@ -284,7 +286,7 @@ def ev_chain_single(case, rec):
 
 
 SUBCHECKS = [
-    Sub('ops', gen_ops, ev_ops, chunk=1, floor=80),
+    Sub('ops', gen_ops, ev_ops, chunk=1, floor=80, timeout=1800),
     Sub('chains', gen_chain, ev_chain_single, chunk=1, floor=1000),
 ]
 
